@@ -55,8 +55,9 @@ const (
 
 // listItem represents an item in a list.
 type listItem struct {
-	Text  string
-	Level int
+	Text    string
+	Level   int
+	Ordered bool // kind of the list the item stands in (a nested list may differ from its parent)
 }
 
 // ParsedTable represents a table extracted from HTML.
